@@ -149,12 +149,18 @@ impl Cons {
 
 impl Drop for Cons {
     fn drop(&mut self) {
-        if self.cdr.strong_count() > 1 || !self.cdr.consp() {
+        // Let go of the car first: it, or something it holds, may be the only
+        // other owner of the cdr. The car slot then holds a second reference
+        // to the cdr, hence the 2. A cdr with other owners is not looked into:
+        // one of them may be in the middle of changing it.
+        self.car = self.cdr.clone();
+        if self.cdr.strong_count() > 2 || !self.cdr.consp() {
             return;
         }
         let mut cdr = self.cdr.take();
-        while let TulispValue::List { cons, .. } = cdr {
-            if cons.cdr.strong_count() > 1 {
+        while let TulispValue::List { mut cons, .. } = cdr {
+            cons.car = cons.cdr.clone();
+            if cons.cdr.strong_count() > 2 {
                 break;
             }
             cdr = cons.cdr.take();
